@@ -17,6 +17,7 @@ mod text;
 mod transcript;
 mod util;
 mod verdict;
+mod words;
 mod xadd;
 
 use serde_json::{json, Value};
@@ -49,6 +50,7 @@ fn main() {
         "xadd" => cmd_xadd(&args[2..]),
         "transcript" => transcript::cmd_transcript(&args[2..]),
         "render" => cmd_render(&args[2..]),
+        "words" => cmd_words(&args[2..]),
         other => {
             eprintln!("unknown command {other}");
             2
@@ -576,6 +578,22 @@ fn cmd_fuzz_asm(args: &[String]) -> i32 {
     let report = json!({"inputs": n, "systematic": systematic, "distinct": distinct.len(), "ok": ok, "err": err, "fail": fails.len(), "failures": fails, "samples": samples});
     std::fs::write(report_path, serde_json::to_string(&report).unwrap()).unwrap();
     println!("fuzz-asm: {n} inputs, {ok} ok, {err} err, {} failing", report["fail"]);
+    0
+}
+
+/// rv words --cases F --report R      MC_Word64 records against native u64 / i64 arithmetic
+fn cmd_words(args: &[String]) -> i32 {
+    let recs = read_ndjson(arg(args, "--cases").expect("--cases"));
+    let report_path = arg(args, "--report").expect("--report");
+    let mut fails = Vec::new();
+    for r in &recs {
+        let bad = words::judge(r);
+        if !bad.is_empty() && fails.len() < 50 {
+            fails.push(json!({"record": r, "reason": bad.join(" | ")}));
+        }
+    }
+    std::fs::write(report_path, serde_json::to_string(&json!({"pairs": recs.len(), "fail": fails.len(), "failures": fails})).unwrap()).unwrap();
+    println!("words: {} operand pairs, {} disagreeing", recs.len(), fails.len());
     0
 }
 
